@@ -205,7 +205,15 @@ pub fn worker(lane: &Lane, verif_seed: u64, shard: u64, of: u64, count: u64, sta
                         // establishment cases are single calls: nothing to minimise
                         (sc.clone(), vec![], case.run(), false)
                     } else {
-                        minimize::minimize(lane, sc, cfg, &rr, &key)
+                        // a panic inside the minimiser (an oracle meeting a script no generator writes) must not
+                        // cost the report: fall back to the run as found
+                        match std::panic::catch_unwind(std::panic::AssertUnwindSafe(|| minimize::minimize(lane, sc, cfg, &rr, &key))) {
+                            Ok(x) => x,
+                            Err(_) => {
+                                let again = runner::run(sc, Sched::from_trace(rr.trace.clone(), None), cfg);
+                                (sc.clone(), rr.trace.clone(), again, false)
+                            }
+                        }
                     };
                     let mv = (lane.check)(&msc, &mrr).into_iter().find(|x| x.key() == key).unwrap_or(v.clone());
                     let rep = Replay {
@@ -440,6 +448,20 @@ pub fn run_lane(lane: &Lane, verif_seed: u64, count: u64, workers: u64) -> LaneO
             Err(mpsc::RecvTimeoutError::Timeout) => {}
             Err(mpsc::RecvTimeoutError::Disconnected) => break,
         }
+        // A process-level failure costs the stall limit plus the confirmation run each time. A few confirmed ones
+        // settle the verdict; what is left of the lane would only repeat them (a spinning driver stalls every case).
+        let max_pf: usize = std::env::var("VERIF_MAX_PROCESS_FAILURES").ok().and_then(|s| s.parse().ok()).unwrap_or(3);
+        if reports.iter().filter(|r| r.violation.clause.ends_with(".process")).count() >= max_pf {
+            eprintln!("note: {}/{}: {} confirmed process-level failures, the rest of the lane is not run", lane.prop, lane.family, max_pf);
+            for w in ws.iter_mut() {
+                if !w.done {
+                    let _ = w.child.kill();
+                    let _ = w.child.wait();
+                    w.done = true;
+                }
+            }
+            break;
+        }
         // stall supervision
         for k in 0..ws.len() {
             if !ws[k].done && ws[k].last_activity.elapsed() > stall {
@@ -459,8 +481,8 @@ pub fn run_lane(lane: &Lane, verif_seed: u64, count: u64, workers: u64) -> LaneO
 pub fn confirm_process_failure(lane: &Lane, verif_seed: u64, index: u64, case: usize, why: &str) -> Vec<VReport> {
     let exe = std::env::current_exe().expect("current_exe");
     let mut child = match Command::new(&exe)
-        .args(["one", "--prop", lane.prop, "--family", lane.family, "--seed", &verif_seed.to_string(), "--index", &index.to_string(), "--case", &case.to_string(), "--quiet"])
-        .stdout(Stdio::null())
+        .args(["one", "--prop", lane.prop, "--family", lane.family, "--seed", &verif_seed.to_string(), "--index", &index.to_string(), "--case", &case.to_string(), "--quiet", "--report"])
+        .stdout(Stdio::piped())
         .stderr(Stdio::null())
         .spawn()
     {
@@ -489,7 +511,18 @@ pub fn confirm_process_failure(lane: &Lane, verif_seed: u64, index: u64, case: u
             use std::os::unix::process::ExitStatusExt;
             if let Some(sg) = s.signal() {
                 format!("process-killed-by-signal-{sg}")
-            } else if s.code() == Some(0) || s.code() == Some(1) {
+            } else if s.code() == Some(1) {
+                // alone the case runs to completion and shows an ordinary violation, which the dead worker never
+                // reported: report it (unminimised)
+                let mut out = String::new();
+                if let Some(mut so) = child.stdout.take() {
+                    use std::io::Read;
+                    let _ = so.read_to_string(&mut out);
+                }
+                let reps: Vec<VReport> = out.lines().filter_map(|l| l.strip_prefix("V ")).filter_map(|j| serde_json::from_str(j).ok()).collect();
+                eprintln!("note: index {index} of {}/{}: the worker died ({why}); alone the case reports {} violation(s)", lane.prop, lane.family, reps.len());
+                return reps;
+            } else if s.code() == Some(0) {
                 // ran to completion alone: the earlier death is not reproducible -> harness note only
                 eprintln!("note: index {index} of {}/{} did not reproduce a process failure ({why})", lane.prop, lane.family);
                 return vec![];
